@@ -9,10 +9,11 @@ def decode(string):
   return unsafe_decode(string)
 
 def validate_encoded(string):
-  if not re.match("^[ !-~]+$", string):
+  if not re.match(r"^[!-~]+( [!-~]+)*$", string):
     raise gfapy.FormatError(
       "{} is not a valid list of GFA2 identifier\n".format(repr(string))+
-      "(it contains non-printable characters)")
+      "(identifiers are separated by single spaces and "+
+      "consist of printable characters)")
 
 def validate_decoded(obj):
   if isinstance(obj, list):
